@@ -182,7 +182,17 @@ impl Property for C11 {
                 let sizes = [1usize, 2, 2, 3, 4, 4, 5, 8, 8, 12, 16];
                 let mut pools: Vec<usize> = pls.iter().map(|p| sizes[pick(*p, sizes.len())]).collect();
                 pools.dedup();
-                let updates = crate::gen::alpha_list(&base.spec, &raws);
+                let mut updates = crate::gen::alpha_list(&base.spec, &raws);
+                // 1 of 4 cases: two further updates that differ only in the sign of a zero coordinate
+                // (numerically equal parameter vectors, different models)
+                if burn % 4 == 1 {
+                    let mut a = updates.last().cloned().unwrap_or_else(|| base.alpha.clone());
+                    let k = pick(burn.rotate_left(5), a.len());
+                    a[k] = if burn % 8 == 1 { 0.0 } else { -0.0 };
+                    updates.push(a.clone());
+                    a[k] = -a[k];
+                    updates.push(a);
+                }
                 C11Case { base, lm, pools, burn: if burn % 3 == 0 { 0 } else { 20 * pick(burn, 40) }, updates }
             })
             .boxed()
